@@ -45,6 +45,7 @@ KSTALE = "dirfile_standards/version-cache-stale-after-hide-unhide-protect-affixe
 KAFFPAR = "alter-affixes/parent-fragment-not-marked-modified"
 KORACLE = "dirfile_standards/accepted-nonconforming-version"
 KREF5 = "metaflush+reopen/reference-field-not-recorded-below-version-6"
+KUNREF = "uninclude/reference-field-not-renominated"
 
 
 def hx(b):
@@ -1583,6 +1584,13 @@ def main():
             for x, y in zip(la, lb):
                 n_snap += 1
                 if x == y:
+                    continue
+                if any(q.startswith(("UNINCLUDEN ", "UNINCLUDE ")) for q in c.cmds) and (
+                        (x == "R -" and y.startswith("R ")) or
+                        (x.startswith("G ") and " ref=- " in x + " " and re.sub(r" ref=\S+", "", x) == re.sub(r" ref=\S+", "", y))):
+                    viol(KUNREF, "gd_uninclude of the fragment holding the reference field leaves the dirfile without a reference field in memory "
+                         "(gd_reference() = NULL) although RAW fields remain; after flush+reopen one of them is the reference field: %s | %s" % (x[:80], y[:80]),
+                         dict(replay, reopen=tag))
                     continue
                 if x.startswith("R ") and y.startswith("R ") and c.dstd < 6:
                     viol(KREF5, "below Standards Version 6 no /REFERENCE is written and the parser nominates the LAST RAW field of the fragment "
